@@ -6,6 +6,9 @@ process (arguments, return value, memory `offset xold1 xold2` before the call, n
 `fn_callback` records the states of the variable signals at every iteration.
 
 correspondence (model `Core/MMA.lean` run at Float)
+  sens    : for EVERY recorded call, the gradients `dg` handed to mmasub vs the model's per-response sensitivity
+            collection (`collectSens`: a variable signal whose sensitivity is None contributes zeros) fed with the
+            independently computed gradient slices of the connected signals (tolerance 1e-9)
   mmasub  : for EVERY recorded call, the model's `mmasubPre` from the recorded memory and (xval, g, dg) vs the recorded
             arguments `low upp alfa beta P Q b epsimin` of subsolv and the new offset (tolerance 1e-9)
   subsolv : for EVERY recorded call, the model's `subsolv` on the recorded arguments vs the returned
@@ -17,7 +20,9 @@ correspondence (model `Core/MMA.lean` run at Float)
             `response()` with maxit = 0 (exact), write-back kinds
 oracle (on the real code, independent of the model), for every recorded call
   low < alfa <= xval <= beta < upp, xmin <= alfa, beta <= xmax, xval - alfa <= move*dx, beta - xval <= move*dx;
-  the approximation reproduces g_i and grad g_i at xval; the returned point has alfa < x < beta and
+  the approximation reproduces g_i and grad g_i of the TEST PROBLEM at xval (value and gradient computed independently
+  of the optimiser; responses are connected to random subsets of the variable signals, so None sensitivities occur),
+  the dg handed to mmasub is that gradient; the returned point has alfa < x < beta and
   y z lam xsi eta mu zet s > 0 and its KKT residual (epsi = 0) is <= 20 * epsimin*sqrt(m+n);
   every iterate lies in [xmin, xmax] and moves by at most move*(xmax-xmin); states go to the right signals.
   Observed (partial): with default asymptote parameters the last iterate is close to the constructed optimum x* and the
@@ -35,6 +40,8 @@ from ..common import call_impl, close
 
 RULE = ("random convex problems g_i = k + l.x + x.H.x/2 + sum B/(x+s) (separable or dense PSD H) with a constructed KKT point x*, "
         "1-4 constraints (linear or convex separable, at least one active), 2-40 variables over 1-4 signals incl. python-float / "
+        "numpy scalar states; with >= 2 signals 70% of the problems connect responses (constraints, 10% also the objective, then maxit <= 4) to random "
+        "subsets of the signals only (one module on the subset or one module chain per signal + adder), "
         "numpy scalar states, xmin xmax move each scalar / per signal / per variable, versions Svanberg1987 / Svanberg2007, random "
         "albefa asyinit asyincr asydecr asybound, maxit 3-12 (quick) / up to 40; distinct = distinct recorded subsolv calls")
 ASSUMPTIONS = [
@@ -174,8 +181,13 @@ def resp_module():
     pm = _pm()
 
     class Resp(pm.Module):
-        def _prepare(self, r):
-            self.r = r
+        """one response, connected ONLY to the variable signals it depends on (`idx` = their global variable indices);
+        the other variable signals are never touched by its back-propagation (their sensitivity stays None)"""
+
+        def _prepare(self, r, idx):
+            idx = np.asarray(idx, dtype=int)
+            self.r = {"k": r["k"], "l": r["l"][idx], "B": r["B"][idx], "s": r["s"],
+                      "H": None if r["H"] is None else r["H"][np.ix_(idx, idx)]}
 
         def _cat(self):
             return np.concatenate([np.ravel(np.asarray(s.state, dtype=float)) for s in self.sig_in])
@@ -193,6 +205,17 @@ def resp_module():
                 pos += k
             return out
 
+    class AddUp(pm.Module):
+        def _prepare(self, const):
+            self.const = const
+
+        def _response(self, *ys):
+            return np.float64(self.const + sum(float(y) for y in ys))
+
+        def _sensitivity(self, df):
+            return [df for _ in self.sig_in]
+
+    Resp.AddUp = AddUp
     _MOD = Resp
     return Resp
 
@@ -275,6 +298,35 @@ def gen_problem(ctx, tiny=False):
         slack = 0.0 if k < nact else rng.uniform(0.05, 0.5)
         r["k"] = -resp_value(r, xs) - slack
         cons.append(r)
+    # responses that are connected to a SUBSET of the variable signals only (the others keep sensitivity None)
+    cumg = np.concatenate([[0], np.cumsum(sizes)]).astype(int)
+    masked = nsig >= 2 and rng.random() < 0.7
+    masks = [None] * (m + 1)
+
+    def in_mask(mask):
+        v = np.zeros(n)
+        for k in mask:
+            v[cumg[k]:cumg[k + 1]] = 1.0
+        return v
+    if masked:
+        for k in range(m + 1):
+            if k == 0 and rng.random() < 0.9:
+                continue                                       # the objective mostly sees everything
+            if rng.random() < 0.8:
+                cnt = rng.randint(1, nsig - 1)
+                masks[k] = sorted(rng.sample(range(nsig), cnt))
+        if all(mk is None for mk in masks[1:]):
+            k = rng.randint(1, m)
+            masks[k] = sorted(rng.sample(range(nsig), rng.randint(1, nsig - 1)))
+    for k in range(m):
+        if masks[k + 1] is not None:
+            r = cons[k]
+            keep = in_mask(masks[k + 1])
+            r["l"], r["B"] = r["l"] * keep, r["B"] * keep
+            r["mask"] = masks[k + 1]
+            slack = 0.0 if k < nact else rng.uniform(0.05, 0.5)
+            r["k"] = 0.0
+            r["k"] = -resp_value(r, xs) - slack
     mu = [rng.uniform(0.3, 3.0) if k < nact else 0.0 for k in range(m)]
     obj = {"k": rng.uniform(-1, 1), "s": shift, "H": None}
     obj["B"] = np.array([rng.uniform(0.3, 3.0) for _ in range(n)]) if kind == "separable" or rng.random() < 0.3 else np.zeros(n)
@@ -289,6 +341,14 @@ def gen_problem(ctx, tiny=False):
     lag = g0 + sum(mu[k] * resp_grad(cons[k], xs) for k in range(m))
     rho = np.array([rng.uniform(0.2, 1.0) for _ in range(n)])
     obj["l"] = -lag + np.where(onb == -1, rho, 0.0) - np.where(onb == 1, rho, 0.0)
+    xs_valid = True
+    if masks[0] is not None:
+        keep = in_mask(masks[0])
+        obj["l"], obj["B"] = obj["l"] * keep, obj["B"] * keep
+        if obj["H"] is not None:
+            obj["H"] = obj["H"] * np.outer(keep, keep)
+        obj["mask"] = masks[0]
+        xs_valid = False                                       # x* is no longer the KKT point of the problem
     resp = [obj] + cons
     # start
     x0 = xmin + dx * np.array([rng.uniform(0.05, 0.95) for _ in range(n)])
@@ -306,10 +366,13 @@ def gen_problem(ctx, tiny=False):
     acoef = [0.0] * m if rng.random() < 0.8 else [rng.choice([0.0, 1.0, 0.5]) for _ in range(m)]
     ccoef = [1000.0] * m if rng.random() < 0.7 else [rng.choice([1000.0, 100.0, 1e4]) for _ in range(m)]
     maxit = rng.randint(3, 12) if ctx.quick else rng.randint(3, 40)
+    if not xs_valid:
+        maxit = min(maxit, 4)       # sub-problems of an objective that ignores some variables are slow to solve (Newton caps)
     return {"sizes": sizes, "kinds": kinds, "resp": resp, "x0": x0, "xs": xs, "xmin": xmin_s, "xmax": xmax_s, "move": move_s,
             "opts": opts, "a": acoef, "c": ccoef, "tolx": rng.choice([1e-4, 1e-4, 0.0, 1e-6]),
             "tolf": rng.choice([0.0, 0.0, 0.0, 1e-6]), "maxit": maxit, "entry": rng.choice(["MMA", "minimize_mma"]),
-            "default_asy": default_asy, "kind": kind, "mu": mu}
+            "default_asy": default_asy, "kind": kind, "mu": mu, "xs_valid": xs_valid, "chains": rng.random() < 0.5,
+            "masked": masked}
 
 
 def make_states(p):
@@ -328,7 +391,24 @@ def run_impl(p):
     with fast_init_loc():
         sigs = [pm.Signal(f"x{i}", st) for i, st in enumerate(make_states(p))]
         outs = [pm.Signal(f"g{i}") for i in range(len(p["resp"]))]
-        net = pm.Network([Resp(sigs, o, r) for o, r in zip(outs, p["resp"])])
+        cum = np.concatenate([[0], np.cumsum(p["sizes"])]).astype(int)
+        mods = []
+        for ri, (o, r) in enumerate(zip(outs, p["resp"])):
+            mask = r.get("mask")
+            ks = list(range(len(sigs))) if mask is None else list(mask)
+            if r["H"] is None and p.get("chains") and len(ks) > 1:
+                # separate module chain per signal, summed up afterwards
+                parts = []
+                for k in ks:
+                    part = pm.Signal(f"g{ri}_{k}")
+                    rk = dict(r, k=0.0)
+                    mods.append(Resp([sigs[k]], part, rk, np.arange(cum[k], cum[k + 1])))
+                    parts.append(part)
+                mods.append(Resp.AddUp(parts, o, r["k"]))
+            else:
+                idx = np.concatenate([np.arange(cum[k], cum[k + 1]) for k in ks])
+                mods.append(Resp([sigs[k] for k in ks], o, r, idx))
+        net = pm.Network(mods)
     trace = []
 
     def cb():
@@ -393,12 +473,33 @@ def oracle_call(p, call, idx):
             j = first(bad)
             return (f"call {idx}: {nm} fails at variable {j}: low={low[j]!r} alfa={alfa[j]!r} xval={xval[j]!r} beta={beta[j]!r} "
                     f"upp={upp[j]!r} xmin={xmin[j]!r} xmax={xmax[j]!r} move*dx={move[j] * dx[j]!r}")
+    # the gradient of every response of the TEST PROBLEM at the current design, computed here (not taken from the optimiser)
+    true_dg = np.array([resp_grad(r, xval) for r in p["resp"]])
+    true_g = np.array([resp_value(r, xval) for r in p["resp"]])
+    if true_dg.shape == a_["P"].shape:
+        P, Q = a_["P"], a_["Q"]
+        ux, xl = upp - xval, xval - low
+        grad = P / ux ** 2 - Q / xl ** 2
+        sc = 1.0 + float(np.max(np.abs(true_dg)))
+        if float(np.max(np.abs(grad - true_dg))) > 1e-8 * sc:
+            i, j = np.unravel_index(int(np.argmax(np.abs(grad - true_dg))), true_dg.shape)
+            return (f"call {idx}: gradient of the approximation of response {i} w.r.t. variable {j} is {grad[i, j]!r}, the "
+                    f"derivative of the response is {true_dg[i, j]!r}")
+        val = (P[1:] @ (1 / ux) + Q[1:] @ (1 / xl)) - a_["b"]
+        sv = 1.0 + float(np.max(np.abs(true_g))) + float(np.max(np.abs(P[1:] @ (1 / ux) + Q[1:] @ (1 / xl))))
+        if float(np.max(np.abs(val - true_g[1:]))) > 1e-9 * sv:
+            i = int(np.argmax(np.abs(val - true_g[1:])))
+            return f"call {idx}: approximation of constraint {i + 1} at the current design is {val[i]!r}, the constraint value is {true_g[i + 1]!r}"
     if "g" in call:
         g, dg = call["g"], call["dg"]
         P, Q = a_["P"], a_["Q"]
         ux, xl = upp - xval, xval - low
         grad = P / ux ** 2 - Q / xl ** 2
         sc = 1.0 + float(np.max(np.abs(dg)))
+        if dg.shape == true_dg.shape and float(np.max(np.abs(dg - true_dg))) > 1e-9 * sc:
+            i, j = np.unravel_index(int(np.argmax(np.abs(dg - true_dg))), dg.shape)
+            return (f"call {idx}: sensitivity of response {i} w.r.t. variable {j} handed to mmasub is {dg[i, j]!r}, the derivative "
+                    f"of the response is {true_dg[i, j]!r}")
         if float(np.max(np.abs(grad - dg))) > 1e-8 * sc:
             i, j = np.unravel_index(int(np.argmax(np.abs(grad - dg))), dg.shape)
             return f"call {idx}: gradient of the approximation of response {i} w.r.t. variable {j} is {grad[i, j]!r}, not {dg[i, j]!r}"
@@ -498,6 +599,20 @@ def req_mmasub(p, call):
     return rq
 
 
+def req_sens(p, call, written):
+    """what back-propagation of each response alone leaves in the variable signals (from the independently computed
+    gradient; None for the signals the response is not connected to) -> the model's collection"""
+    cum = np.concatenate([[0], np.cumsum(p["sizes"])]).astype(int)
+    xval = call["xval"]
+    sens = []
+    for r in p["resp"]:
+        gr = resp_grad(r, xval)
+        mask = r.get("mask")
+        sens.append([fl(gr[cum[k]:cum[k + 1]]) if (mask is None or k in mask) else None for k in range(len(p["sizes"]))])
+    states = [{"scalar": float(v)} if kind == "scalar" else {"arr": [float(w) for w in v]} for kind, v in written]
+    return {"m": "c10.sens", "states": states, "sens": sens}
+
+
 def req_subsolv(call):
     a_ = call["args"]
     return {"m": "c10.subsolv", "n": int(a_["low"].size), "mcons": int(a_["a"].size), "epsimin": a_["epsimin"], "low": fl(a_["low"]),
@@ -513,7 +628,7 @@ def req_run(p):
         pos += k
     rq = {"m": "c10.run", "states": states,
           "responses": [{"k": float(r["k"]), "l": fl(r["l"]), "B": fl(r["B"]), "s": float(r["s"]),
-                         "H": None if r["H"] is None else [fl(row) for row in r["H"]]} for r in p["resp"]],
+                         "H": None if r["H"] is None else [fl(row) for row in r["H"]], "mask": r.get("mask")} for r in p["resp"]],
           "tolx": float(p["tolx"]), "tolf": float(p["tolf"]), "maxit": int(p["maxit"]), "xmin": spec_req(p["xmin"]),
           "xmax": spec_req(p["xmax"]), "move": spec_req(p["move"]), "a": fl(p["a"]), "c": fl(p["c"]), "fuel": FUEL}
     rq.update(opts_req(p["opts"]))
@@ -525,7 +640,8 @@ def describe(p):
             "move": list(p["move"]), "opts": p["opts"], "a": p["a"], "c": p["c"], "tolx": p["tolx"], "tolf": p["tolf"],
             "maxit": p["maxit"], "entry": p["entry"], "kind": p["kind"],
             "resp": [{"k": float(r["k"]), "l": fl(r["l"]), "B": fl(r["B"]), "s": float(r["s"]),
-                      "H": None if r["H"] is None else [fl(row) for row in r["H"]]} for r in p["resp"]], "xs": fl(p["xs"])}
+                      "H": None if r["H"] is None else [fl(row) for row in r["H"]], "mask": r.get("mask")} for r in p["resp"]],
+            "xs": fl(p["xs"]), "xs_valid": p.get("xs_valid", True), "chains": p.get("chains", False)}
 
 
 def undescribe(d):
@@ -535,7 +651,7 @@ def undescribe(d):
     for k in ("xmin", "xmax", "move"):
         p[k] = tuple(d[k])
     p["resp"] = [{"k": r["k"], "l": np.array(r["l"]), "B": np.array(r["B"]), "s": r["s"],
-                  "H": None if r["H"] is None else np.array(r["H"])} for r in d["resp"]]
+                  "H": None if r["H"] is None else np.array(r["H"]), "mask": r.get("mask")} for r in d["resp"]]
     p.setdefault("default_asy", False)
     p.setdefault("mu", [])
     return p
@@ -578,6 +694,9 @@ def stream_runs(ctx, nprob):
             if "g" in call and "xmin" in call:
                 reqs.append(req_mmasub(p, call))
                 meta.append(("mmasub", pi, ci))
+            if "dg" in call and ci < len(out["trace"]):
+                reqs.append(req_sens(p, call, out["trace"][ci]))
+                meta.append(("sens", pi, ci))
             reqs.append(req_subsolv(call))
             meta.append(("subsolv", pi, ci))
         reqs.append(req_run(p))
@@ -609,6 +728,23 @@ def stream_runs(ctx, nprob):
             mem = call["mem"]
             ctx.branch("mmasub." + ("first" if mem["xold1"] is None else "second" if mem["xold2"] is None else "asymptote_update"))
             ctx.branch("mmasub.version." + ("1987" if "1987" in p["opts"]["mmaversion"] else "2007"))
+        elif kind == "sens":
+            call = out["calls"][ci]
+            rows = dec(mo)
+            dg = call["dg"]
+            sc = 1.0 + float(np.max(np.abs(dg)))
+            if len(rows) != dg.shape[0] or any(len(r) != dg.shape[1] for r in rows):
+                ctx.disagree(kind, case, list(dg.shape), [len(r) for r in rows], "shape of the collected sensitivities")
+                continue
+            cmp_blocks(ctx, kind, case, [(f"dg[{i}]", dg[i], rows[i], sc) for i in range(dg.shape[0])], 1e-9, 1e-12,
+                       key=("sens", pi, ci, ctx.seed))
+            nn = sum(1 for r in p["resp"] if r.get("mask") is not None)
+            ctx.branch("sens.responses_with_unconnected_signals=" + ("0" if nn == 0 else "1" if nn == 1 else "2+"))
+            if p["resp"][0].get("mask") is not None:
+                ctx.branch("sens.objective_unconnected")
+            if any(r.get("mask") is not None and any(p["kinds"][k] != "arr" or p["sizes"][k] == 1 for k in range(len(p["sizes"])) if k not in r["mask"])
+                   for r in p["resp"]):
+                ctx.branch("sens.scalar_signal_unconnected")
         elif kind == "subsolv":
             call = out["calls"][ci]
             if "raises" in mo:
@@ -701,7 +837,7 @@ def observe_convergence(ctx, conv):
     """partial / observed: approach to the optimum, constraints satisfied at the end"""
     worst_d, worst_g, cnt = 0.0, -1.0, 0
     for p, out, (d0, d1, gmax) in conv:
-        if not (p["default_asy"] and len(out["trace"]) >= 10 and all(v == 0.0 for v in p["a"])):
+        if not (p["default_asy"] and p.get("xs_valid", True) and len(out["trace"]) >= 10 and all(v == 0.0 for v in p["a"])):
             continue
         cnt += 1
         worst_d = max(worst_d, d1)
@@ -793,21 +929,21 @@ def transport_selftest(ctx):
 
 
 def selftest_detects(ctx):
-    """a deliberately wrong model input (albefa changed / objective rows of P and Q changed) must be noticed by the comparison"""
+    """a deliberately wrong model input (design shifted / objective rows of P and Q changed) must be noticed by the comparison"""
     p = gen_problem(ctx)
     out = run_impl(p)
     if "raises" in out or not out["calls"]:
         return
     call = out["calls"][-1]
     rq1 = req_mmasub(p, call)
-    rq1["albefa"] = float(rq1["albefa"]) * 1.5
+    rq1["xval"][0] = rq1["xval"][0] + 1e-3 * (1.0 + abs(rq1["xval"][0]))
     rq2 = req_subsolv(call)
     rq2["P"][0] = [2.0 * v + 1e-3 for v in rq2["P"][0]]
     rq2["Q"][0] = [0.5 * v for v in rq2["Q"][0]]
     m1, m2 = ctx.model([rq1, rq2], shards=1)
     d1, d2 = dec(m1.get("ok", {})), dec(m2.get("ok", {}))
     a_ = call["args"]
-    same1 = "alfa" in d1 and close(a_["alfa"].tolist(), d1["alfa"], 1e-9, 1e-12)[0] and close(a_["beta"].tolist(), d1["beta"], 1e-9, 1e-12)[0]
+    same1 = "low" in d1 and close(a_["low"].tolist(), d1["low"], 1e-9, 1e-12)[0] and close(a_["upp"].tolist(), d1["upp"], 1e-9, 1e-12)[0]
     same2 = "pt" in d2 and all(close(call["out"][k].tolist(), d2["pt"][k], 1e-6, 1e-6)[0] for k in ("x", "lam", "xsi", "eta"))
     if same1 or same2:
         ctx.disagree("selftest", {"problem": describe(p)}, None, None, "a wrong model input was not noticed "
@@ -819,7 +955,7 @@ def selftest_detects(ctx):
 def correspondence(ctx):
     transport_selftest(ctx)
     stream_expand(ctx)
-    stream_runs(ctx, 40 if ctx.quick else 350)
+    stream_runs(ctx, 40 if ctx.quick else 250)
     selftest_detects(ctx)
 
 
